@@ -341,7 +341,7 @@ class WorldGen:
             else:
                 m["normalize grain sizes"] = [r.random() < 0.5 for _ in comps]
                 if name.endswith("deflected"):
-                    m["deflections"] = [r.choice([0, 0.25, 0.5, 1]) for _ in comps]
+                    m["deflections"] = [r.choice([0, 0.25, 0.5, 1, 1e-3, 1e-5]) for _ in comps]
                     if r.random() < 0.6:
                         m["basis Euler angles z-x-z"] = [[r.choice([0, 10, 45]), r.choice([0, 20, 60]), r.choice([0, 30])] for _ in comps]
                     else:
@@ -570,7 +570,7 @@ class WorldGen:
                     elif len(comps) != 1:
                         m["normalize grain sizes"] = [r.random() < 0.5 for _ in comps]
                     if name.endswith("deflected"):
-                        m["deflections"] = [r.choice([0, 0.25, 0.5, 1]) for _ in comps]
+                        m["deflections"] = [r.choice([0, 0.25, 0.5, 1, 1e-3, 1e-5]) for _ in comps]
                         if r.random() < 0.6:
                             m["basis Euler angles z-x-z"] = [[r.choice([0, 10, 45]), r.choice([0, 20, 60]), r.choice([0, 30])] for _ in comps]
                         else:
